@@ -7233,7 +7233,8 @@ FullControlT<ArgsT<TG_, TSL_, TRL_, NCC_, NOC_, NOU_, TRO_ HFSM2_IF_SERIALIZATIO
 	HFSM2_ASSERT(subStatus);
 
 	if (subStatus.result == TaskStatus::FAILURE) {
-		_taskStatus.result = TaskStatus::FAILURE;
+		// the result that travels on is whatever planFailed() - the default calls fail() - leaves behind
+		_taskStatus.result = TaskStatus::NONE;
 		HFSM2_LOG_PLAN_STATUS(context(), _regionStateId, StatusEvent::FAILED);
 
 		headState.wrapPlanFailed(*this);
@@ -7269,7 +7270,8 @@ FullControlT<ArgsT<TG_, TSL_, TRL_, NCC_, NOC_, NOU_, TRO_ HFSM2_IF_SERIALIZATIO
 
 			return TaskStatus{};
 		} else {
-			_taskStatus.result = TaskStatus::SUCCESS;
+			// the result that travels on is whatever planSucceeded() - the default calls succeed() - leaves behind
+			_taskStatus.result = TaskStatus::NONE;
 			HFSM2_LOG_PLAN_STATUS(context(), _regionStateId, StatusEvent::SUCCEEDED);
 
 			plan().clearTasks();
@@ -7408,7 +7410,8 @@ FullControlT<ArgsT<TG_, TSL_, TRL_, NCC_, NOC_, NOU_, TRO_ HFSM2_IF_SERIALIZATIO
 	HFSM2_ASSERT(subStatus);
 
 	if (subStatus.result == TaskStatus::FAILURE) {
-		_taskStatus.result = TaskStatus::FAILURE;
+		// the result that travels on is whatever planFailed() - the default calls fail() - leaves behind
+		_taskStatus.result = TaskStatus::NONE;
 		HFSM2_LOG_PLAN_STATUS(context(), _regionStateId, StatusEvent::FAILED);
 
 		headState.wrapPlanFailed(*this);
@@ -7441,7 +7444,8 @@ FullControlT<ArgsT<TG_, TSL_, TRL_, NCC_, NOC_, NOU_, TRO_ HFSM2_IF_SERIALIZATIO
 
 			return TaskStatus{};
 		} else {
-			_taskStatus.result = TaskStatus::SUCCESS;
+			// the result that travels on is whatever planSucceeded() - the default calls succeed() - leaves behind
+			_taskStatus.result = TaskStatus::NONE;
 			HFSM2_LOG_PLAN_STATUS(context(), _regionStateId, StatusEvent::SUCCEEDED);
 
 			plan().clearTasks();
